@@ -370,7 +370,7 @@ def opWinfo : P (List String) := do
 /-- `cli <nargs> args… <adjbytes> <affbytes|->` → the call record -/
 def opCli : P (List String) := do
   let n ← nat
-  let argv ← many n tok
+  let argv := (← many n tok).map fun a => if a = "\"\"" then "" else a   -- `""` stands for an empty argument
   let adj ← bytesP
   let hasAff ← bool
   let aff ← bytesP
